@@ -16,6 +16,11 @@ pub enum OT {
     Arr,
     /// `#[derive(Drop)] struct Pair { x: NC, y: NC }`
     Pair,
+    /// Library wrappers around NC: droppable because NC is, copyable only if NC were.
+    Nul,
+    Bx,
+    Opt,
+    Tup,
 }
 
 #[derive(Clone, Copy, PartialEq, Eq, Debug)]
@@ -111,6 +116,34 @@ fn eat_pair(p: Pair) -> felt252 {
     let Pair { x, y } = p;
     eat_nc(x) + eat_nc(y)
 }
+fn mk_nul(v: felt252) -> Nullable<NC> {
+    NullableTrait::new(mk_nc(v))
+}
+fn eat_nul(x: Nullable<NC>) -> felt252 {
+    eat_nc(x.deref())
+}
+fn mk_box(v: felt252) -> Box<NC> {
+    BoxTrait::new(mk_nc(v))
+}
+fn eat_box(x: Box<NC>) -> felt252 {
+    eat_nc(x.unbox())
+}
+fn mk_opt(v: felt252) -> Option<NC> {
+    Option::Some(mk_nc(v))
+}
+fn eat_opt(x: Option<NC>) -> felt252 {
+    match x {
+        Option::Some(n) => eat_nc(n),
+        Option::None => 0,
+    }
+}
+fn mk_tup(v: felt252) -> (NC, felt252) {
+    (mk_nc(v), v)
+}
+fn eat_tup(x: (NC, felt252)) -> felt252 {
+    let (n, f) = x;
+    eat_nc(n) + f
+}
 fn peek_nc(x: @NC) -> felt252 {
     *x.a
 }
@@ -143,6 +176,10 @@ fn mk(ty: OT) -> &'static str {
         OT::ND => "mk_nd",
         OT::Arr => "mk_arr",
         OT::Pair => "mk_pair",
+        OT::Nul => "mk_nul",
+        OT::Bx => "mk_box",
+        OT::Opt => "mk_opt",
+        OT::Tup => "mk_tup",
     }
 }
 fn eat(ty: OT) -> &'static str {
@@ -151,6 +188,10 @@ fn eat(ty: OT) -> &'static str {
         OT::ND => "eat_nd",
         OT::Arr => "eat_arr",
         OT::Pair => "eat_pair",
+        OT::Nul => "eat_nul",
+        OT::Bx => "eat_box",
+        OT::Opt => "eat_opt",
+        OT::Tup => "eat_tup",
     }
 }
 
@@ -299,7 +340,7 @@ impl G<'_> {
         let w_pm = if self.budget > 0 && self.depth < 3 { 2 } else { 0 };
         match self.ch.weighted(&[w_new, w_consume, w_peek, w_if, w_loop, w_partial, 1, 2, w_pm]) {
             0 => {
-                let ty = *self.ch.pick(&[OT::NC, OT::NC, OT::ND, OT::Arr, OT::Pair]);
+                let ty = *self.ch.pick(&[OT::NC, OT::NC, OT::ND, OT::Arr, OT::Pair, OT::Nul, OT::Bx, OT::Opt, OT::Tup]);
                 let name = self.fresh();
                 let k = self.ch.below(9);
                 self.emit(&format!("let mut {name} = {}({k});", mk(ty)));
